@@ -202,6 +202,31 @@ pub fn run(run: &mut Run) {
     // short random sessions
     let n = run.budget(30_000, 2_000_000);
     run.prop(&Sessions, session_strategy(8, 2, 1, true, Some(false)), n);
+    // thorough tier only: real quiet periods (12 s and 31 s of wall-clock time) between and inside frames - behaviour keyed on
+    // std::time::Instant (stall guards, idle timers shorter than the 90 s timeout) is invisible to everything else
+    if !run.quick() {
+        let mut cases = vec![];
+        for compressed in [false, true] {
+            let mode = if compressed { Mode::Compressed } else { Mode::Uncompressed };
+            let ping = |n: u8| frame_bytes(&FrameSpec::Tiny(3, n), &mode);
+            let ka = frame_bytes(&FrameSpec::KeepAlive, &mode);
+            let big = frame_bytes(&FrameSpec::Kind(12, vec![7; 40]), &mode);
+            let steps = vec![
+                ReadStep::Data(ping(1)),
+                ReadStep::RealPause(12_000),
+                ReadStep::Data(ping(2)[..3].to_vec()),
+                ReadStep::Data(ping(2)[3..].to_vec()),
+                ReadStep::Data(big[..5].to_vec()),
+                ReadStep::RealPause(31_000),
+                ReadStep::Data(big[5..].to_vec()),
+                ReadStep::Data(ka[..2].to_vec()),
+                ReadStep::Data(ka[2..].to_vec()),
+                ReadStep::Data(ping(3)),
+            ];
+            cases.push(SessionCase { compressed, verify: false, steps, writes: vec![], label: "real quiet periods".into() });
+        }
+        run.list(&Sessions, "generated-sessions", cases);
+    }
     // long sessions: tens of KB, many reclaim cycles of the receive buffer
     let n = run.budget(1_500, 100_000);
     run.prop(&Sessions, session_strategy(300, 2, 1, true, Some(false)), n);
